@@ -20,7 +20,7 @@ LEVEL = "exploration"
 RULE = (
     "valid: seeded greedy covering array, pairwise (quick) / 3-wise (thorough), coverage of all t-tuples verified and reported, over kernel(2) x "
     "resampler(2) x clustering(2) x normalize(2) x cluster_every{1,2,3} x n_max_clusters{None,1,2,4} x split_threshold{0.3,1,3} x metric{ESS,vv0.3,vv2} x "
-    "n_steps/n_max_steps{None,(1,2),(3,10)} x evaluation{vector,scalar,blobs} x boundaries{none,periodic,reflective,both} x pool{None,pool-like,1} x "
+    "n_steps/n_max_steps{None,(1,2),(3,10)} x evaluation{vector,scalar,blobs} x boundaries{none,periodic,reflective,both} x pool{None,pool-like,1,2} x "
     "save_every{None,1,3} x d{1,2,3}, N=32, ESS target >= 32. invalid: Hypothesis draws a valid base and one offending value for one documented "
     "constraint. Non-trivial: valid row with >=3 non-default factors; invalid case = any (each violates exactly one constraint)."
 )
@@ -95,7 +95,7 @@ class ValidRows(RowCheck):
         "kernel": ["tpcn", "rwm"], "resample": ["mult", "syst"], "clustering": [True, False], "normalize": [True, False],
         "cluster_every": [1, 2, 3], "n_max_clusters": [None, 1, 2, 4], "split_threshold": [1.0, 0.3, 3.0],
         "metric": ["ess", "vv0.3", "vv2"], "steps": [None, "1,2", "3,10"], "mode": ["scalar", "vector", "blobs"],
-        "boundary": ["none", "periodic", "reflective", "both"], "pool": [None, "permuting", 1], "save_every": [None, 1, 3],
+        "boundary": ["none", "periodic", "reflective", "both"], "pool": [None, "permuting", 1, 2], "save_every": [None, 1, 3],
         "d": [1, 2, 3],
     }
     DEFAULTS = {"clustering": True, "normalize": True, "cluster_every": 1, "n_max_clusters": None, "split_threshold": 1.0, "metric": "ess",
